@@ -71,24 +71,24 @@ func jflagString(f int) string {
 
 // jslot: one live joint iterator. Positions are flattened (matrix: i*cols+j).
 type jslot struct {
-	live    bool
-	form    int
-	raw     interface{}
-	ok      func() bool
-	next    func()
-	index   func() (int, bool) // flattened index, in range
-	get     func() (float64, float64)
-	cur     int
-	bv      ad.Vector // operand (vector worlds)
-	bx      ad.Matrix // operand (matrix worlds)
-	bm      []int     // operand model, flattened
-	bsparse bool
-	flags   int   // entry changes ahead of cur made by the last operation (and by the oracle's purging walk after it)
-	side    string // what the last operation worked on: receiver | operand | iterator
-	afterFresh bool // the check's fresh full iteration (which purges stored zeros) ran on this instance
-	rkeys   []int // stored keys of the receiver / operand when the last operation ended
-	okeys   []int
-	cols    int // matrix: number of columns (flattening); vector: 0
+	live       bool
+	form       int
+	raw        interface{}
+	ok         func() bool
+	next       func()
+	index      func() (int, bool) // flattened index, in range
+	get        func() (float64, float64)
+	cur        int
+	bv         ad.Vector // operand (vector worlds)
+	bx         ad.Matrix // operand (matrix worlds)
+	bm         []int     // operand model, flattened
+	bsparse    bool
+	flags      int    // entry changes ahead of cur made by the last operation (and by the oracle's purging walk after it)
+	side       string // what the last operation worked on: receiver | operand | iterator
+	afterFresh bool   // the check's fresh full iteration (which purges stored zeros) ran on this instance
+	rkeys      []int  // stored keys of the receiver / operand when the last operation ended
+	okeys      []int
+	cols       int // matrix: number of columns (flattening); vector: 0
 }
 
 type jhost interface {
